@@ -103,4 +103,59 @@ Proof.
   cbn [nth]. f_equal. lia.
 Qed.
 
+(* ------------------------------------------------------------- cyclic re-indexing *)
+
+Fixpoint sumn (n : nat) (f : nat -> C) : C :=
+  match n with 0%nat => 0 | S k => sumn k f + f k end.
+
+Lemma sumn_csum n f : csum O (map f (seq 0 n)) = sumn n f.
+Proof.
+  induction n as [|n IH]; [reflexivity|].
+  rewrite seq_S, map_app, csum_app, IH. cbn [plus map csum sumn]. ring.
+Qed.
+
+Lemma sumn_ext n f g : (forall i, (i < n)%nat -> f i = g i) -> sumn n f = sumn n g.
+Proof.
+  induction n as [|n IH]; cbn [sumn]; intros H; [reflexivity|].
+  rewrite IH by (intros; apply H; lia). rewrite H by lia. reflexivity.
+Qed.
+
+Lemma sumn_split a b f : sumn (a + b) f = sumn a f + sumn b (fun i => f (a + i)%nat).
+Proof.
+  induction b as [|b IH]; cbn [sumn].
+  - rewrite Nat.add_0_r. ring.
+  - rewrite Nat.add_succ_r. cbn [sumn]. rewrite IH. ring.
+Qed.
+
+Lemma sumn_cyc N r f : (r <= N)%nat ->
+  sumn N (fun n => f ((n + r) mod N)%nat) = sumn N f.
+Proof.
+  intros Hr. destruct (Nat.eq_dec N 0) as [->|HN]; [reflexivity|].
+  replace N with ((N - r) + r)%nat at 1 by lia.
+  rewrite sumn_split.
+  replace (sumn N f) with (sumn (r + (N - r)) f) by (f_equal; lia).
+  rewrite (sumn_split r (N - r) f).
+  rewrite (sumn_ext (N - r) _ (fun i => f (r + i)%nat)).
+  2:{ intros i Hi. f_equal. rewrite Nat.mod_small by lia. lia. }
+  rewrite (sumn_ext r _ f).
+  2:{ intros i Hi. f_equal. replace (N - r + i + r)%nat with (i + 1 * N)%nat by lia.
+      rewrite Nat.mod_add by lia. apply Nat.mod_small; lia. }
+  ring.
+Qed.
+
+(* any integer offset *)
+Lemma csum_cyclic (N : nat) (d : Z) (f : nat -> C) : N <> 0%nat ->
+  csum O (map (fun i => f (Z.to_nat ((Z.of_nat i + d) mod Z.of_nat N))) (seq 0 N))
+  = csum O (map f (seq 0 N)).
+Proof.
+  intros HN. rewrite !sumn_csum.
+  set (r := Z.to_nat (d mod Z.of_nat N)).
+  assert (Hr : (r <= N)%nat).
+  { subst r. pose proof (Z.mod_pos_bound d (Z.of_nat N)). lia. }
+  rewrite <- (sumn_cyc N r f Hr). apply sumn_ext. intros i Hi. f_equal.
+  subst r. apply Nat2Z.inj. rewrite Z2Nat.id by (apply Z.mod_pos_bound; lia).
+  rewrite Nat2Z.inj_mod by lia. rewrite Nat2Z.inj_add, Z2Nat.id by (apply Z.mod_pos_bound; lia).
+  rewrite Zplus_mod_idemp_r. reflexivity.
+Qed.
+
 End Sums.
